@@ -41,6 +41,9 @@ theorem validated_of_ok (tx : Tx) (s : Slots) (pre : St) (oi : Option L1Info)
   by_cases hn : nonceMismatch tx pre = true
   · simp only [hn, if_true] at h; cases h
   · simp only [hn, if_false] at h
+    by_cases hno : tx.txNonce = some (U64 - 1)
+    · simp only [hno, if_true] at h; cases h
+    simp only [hno, if_false] at h
     cases henv : tx.enveloped with
     | none => simp only [henv] at h; cases h
     | some env =>
@@ -479,12 +482,30 @@ theorem transactWith_deposit (tx : Tx) (s : Slots) (pre : St) (exec : St → St)
   simp only [hdep, if_true, hvg]
   exact runTx_deposit tx pre none exec fr hdep hegp hdf hmint hx
 
-/-- a deposit that does not pass `validate_initial_tx_gas` is answered with the error; `end` is not reached -/
+/-- a deposit that does not pass `validate_initial_tx_gas` ends as a failed deposit (commit 25ebe790) -/
 theorem transactWith_deposit_preverify (tx : Tx) (s : Slots) (pre : St) (exec : St → St) (fr : Frame) (e : Err)
     (hdep : tx.isDeposit = true) (hvg : validateInitialGas tx = some e) :
-    transactWith tx s pre exec fr = .err e := by
-  unfold transactWith validateEnv
+    transactWith tx s pre exec fr = failedDeposit tx pre := by
+  unfold transactWith validateEnv endErr
   simp only [hdep, if_true, hvg]
+
+/-- before that commit the error was returned and nothing was persisted -/
+theorem transactWithOld_deposit_preverify (tx : Tx) (s : Slots) (pre : St) (exec : St → St) (fr : Frame) (e : Err)
+    (hdep : tx.isDeposit = true) (hvg : validateInitialGas tx = some e) :
+    transactWithOld tx s pre exec fr = .err e := by
+  unfold transactWithOld validateEnv
+  simp only [hdep, if_true, hvg]
+
+theorem failedDeposit_any (tx : Tx) (pre : St)
+    (hmint : pre.bal tx.caller + tx.mint.getD 0 < W) (hn : pre.nonce + 1 < U64) :
+    ∃ used, failedDeposit tx pre =
+      .done .failedDeposit used 0
+        { bal := upd pre.bal tx.caller (pre.bal tx.caller + tx.mint.getD 0), nonce := pre.nonce + 1 } ∧
+      (enabled tx.spec REGOLITH = true → used = tx.gasLimit) := by
+  unfold failedDeposit U64ops.saturatingAdd
+  simp only [satAdd_eq _ _ hmint, hn, if_true]
+  refine ⟨_, rfl, ?_⟩
+  intro h; simp only [h, Bool.true_or, if_true]
 
 theorem execSimple_fail (tx : Tx) (st : St) (fr : Frame) (h : fr.cls ≠ .ok) :
     (execSimple tx st fr).bal = st.bal := by
